@@ -94,9 +94,22 @@ func (h *Runner) CheckChecksum(c *common.Ctx) {
 
 // CheckCapture (C02/C03): transactions captured exactly, once, in order.
 func (h *Runner) CheckCapture(c *common.Ctx, prop string, ops map[string]bool) {
-	prevTXID, prevChk := uint64(0), uint64(0)
+	prevTXID, prevChk := h.InitTXID, h.InitChk
 	prevImage := &lfs.Image{PageSize: h.Cfg.PageSize}
+	if h.InitImage != nil {
+		prevImage = h.InitImage
+	}
 	prevFiles := map[string]bool{}
+	if h.External {
+		if infos, _ := lfs.ListLTX(h.DBDir()); len(h.Obs) > 0 {
+			// files that existed before this runner's first step
+			for _, f := range infos {
+				if f.Max <= h.InitTXID {
+					prevFiles[f.Name] = true
+				}
+			}
+		}
+	}
 	for _, ob := range h.Obs {
 		if ob.Panic != "" || len(ob.Exits) > 0 || ob.Image == nil {
 			return
